@@ -9,7 +9,8 @@
 (***************************************************************************)
 EXTENDS InventoryOps, TLC
 
-CONSTANTS Params          \* set of parameter records
+CONSTANTS Params,         \* set of parameter records
+          Bug             \* "none" | "demand_from_closing" (demand is also served from the order that arrives): anti-vacuity
 VARIABLES P, s, last, prev
 vars == <<P, s, last, prev>>
 
@@ -43,7 +44,10 @@ Init == /\ P \in Params
 
 Move == \E a \in ActionSpace(P), e \in EventSpace(P) :
           /\ Support(P, s, a, e)
-          /\ LET r == Step(P, s, a, e) IN
+          /\ LET r0 == Step(P, s, a, e)
+                 r == IF Bug = "demand_from_closing" /\ P.kind = "demoor"
+                      THEN [r0 EXCEPT !.issued = r0.issued + Min2(r0.received, r0.comp[2])] ELSE r0
+             IN
                /\ s' = r.next /\ last' = r /\ prev' = s
           /\ UNCHANGED P
 
